@@ -264,10 +264,23 @@ def check_tobytes(ctx, repo, fr, tob, CM):
     rule = 'R8-tobytes'
     w = repo.walker()
     paths = w.paths(tob.node, cls=fr)
-    if len(paths) != 1:
-        ctx.undecided(rule, tob, 'Fragments.tobytes', 'expected a single path, found %d' % len(paths), tob.node.lineno)
+    # the rendering is a function of the current chunks only: no state kept on the buffer, and
+    # every returning path walks the chunks
+    for pp in paths:
+        for e in pp.all_effects():
+            if (e.kind == 'store_attr' and canon(e.obj) == 'self') or (e.kind == 'setattr' and canon(e.obj) == 'self') or \
+                    (e.kind == 'store_sub' and canon(e.obj).startswith('self.')):
+                ctx.violation(rule, tob, 'tobytes: %s' % e.text()[:100], 'the rendering keeps state on the buffer (memo): a later insert that does not change what the memo is keyed on returns stale bytes', e.lineno, clause='5')
+    full = [pp for pp in paths if not pp.raises() and any(e.kind == 'loop' for e in pp.effects)]
+    short = [pp for pp in paths if not pp.raises() and not any(e.kind == 'loop' for e in pp.effects)]
+    for pp in short:
+        ctx.violation(rule, tob, 'tobytes path [%s] returns %s' % ('; '.join(pp.guard_texts())[:120], canon(pp.ret())[:60] if pp.ret() is not None else None),
+                      'a path returns bytes without walking the stored chunks', tob.node.lineno, clause='5')
+    if len(full) != 1:
+        if not short:
+            ctx.undecided(rule, tob, 'Fragments.tobytes', 'expected a single rendering path, found %d' % len(full), tob.node.lineno)
         return
-    p = paths[0]
+    p = full[0]
     loops = [e for e in p.effects if e.kind == 'loop']
     if len(loops) != 1 or loops[0].sub['kind'] != 'for':
         ctx.undecided(rule, tob, 'Fragments.tobytes', 'expected one for loop over the chunks', tob.node.lineno)
